@@ -1853,6 +1853,22 @@ func (e *c05Env) unmarshalCase(in []byte, r *rand.Rand, optSel int, targets []fu
 			case !reflect.DeepEqual(want, got):
 				field = "value"
 			}
+			if field == "error" && optSel&4 != 0 && strings.HasPrefix(wcl, "V1SYN@") && strings.HasPrefix(gcl, "V1SYN@") {
+				// only SyntaxError.Offset differs under ReportErrorsWithLegacySemantics: is the error identical without that flag?
+				var o2 []json.Options
+				for _, o := range c05Opts(optSel &^ 4) {
+					o2 = append(o2, o)
+				}
+				w2, g2 := new(any), new(any) // the syntactic layer does not depend on the target
+				var we2, ge2 error
+				guard(func() {
+					we2 = json.Unmarshal(append([]byte(nil), in...), w2, o2...)
+					ge2 = json.UnmarshalRead(c05NewFeed(in, p).rd, g2, o2...)
+				})
+				if a, b := c05JErr(we2, 0), c05JErr(ge2, 0); a == b && strings.HasPrefix(a, "SYN:text:") {
+					field = "legacy-offset-depends-on-buffered-invalid-text"
+				}
+			}
 			if field != "" {
 				c.Violate("stream-mismatch", "UnmarshalRead:"+field, in, map[string]any{"input": trunc(string(in), 200), "reader": p.String(), "target": fmt.Sprintf("%T", want), "options": optSel,
 					"Unmarshal": wcl, "UnmarshalRead": gcl, "Unmarshal_value": trunc(fmt.Sprintf("%+v", reflect.ValueOf(want).Elem()), 200), "UnmarshalRead_value": trunc(fmt.Sprintf("%+v", reflect.ValueOf(got).Elem()), 200)})
@@ -1948,6 +1964,24 @@ func (e *c05Env) decodeStreamCase(in []byte, r *rand.Rand, optSel int, mk func()
 				field = "value"
 			case gerr == nil && off != sp.hi:
 				field = "input-offset"
+			}
+			if field == "error" && optSel&4 != 0 && strings.HasPrefix(wcl, "V1SYN@") && strings.HasPrefix(gcl, "V1SYN@") {
+				var o2 []json.Options
+				for _, o := range c05Opts(optSel &^ 4) {
+					o2 = append(o2, o)
+				}
+				// replay the stream up to this value without the flag
+				var we2, ge2 error
+				guard(func() {
+					d2 := jsontext.NewDecoder(c05NewFeed(in, p).rd, c05Opts(optSel&3)...)
+					for k := 0; k <= i; k++ {
+						ge2 = json.UnmarshalDecode(d2, mk(), o2...)
+					}
+					we2 = json.Unmarshal(append([]byte(nil), in[sp.lo:sp.hi]...), mk(), o2...)
+				})
+				if a, b := c05JErr(we2, 0), c05JErr(ge2, sp.lo); a == b && strings.HasPrefix(a, "SYN:text:") {
+					field = "legacy-offset-depends-on-buffered-invalid-text"
+				}
 			}
 			if field != "" {
 				c.Violate("stream-mismatch", "UnmarshalDecode:"+field, in, map[string]any{"input": trunc(string(in), 200), "reader": p.String(), "value_index": i, "value": trunc(string(in[sp.lo:sp.hi]), 100),
